@@ -60,6 +60,32 @@ def gen(tier, rng):
             pos = rng.randrange(8, len(nb) * 8)
             nb[pos // 8] ^= 0x80 >> (pos % 8)
         cases.append("slice %s,%s raw:%s" % (cs, cp, hx(bytes(nb))))
+    # one Exp-Golomb element displaced by a multiple of 256 (a value that a narrowing cast maps back into range)
+    from vlib import bitgen
+    for i in range(2500 if tier == "quick" else 50000):
+        force = {"profile_idc": rng.choice(g.CHROMA_PROFILES)} if i % 2 else {}
+        if i % 4 == 1:
+            force["chroma_format_idc"] = 3
+        s = g.gen_sps(rng, small=True, force=force)
+        if i % 4 == 1:
+            s["scaling_matrix"] = True
+        if len(s["offsets_ref_frame"]) > 7:
+            s["offsets_ref_frame"] = s["offsets_ref_frame"][:2]
+        cases.append("sps raw:" + hx(bitgen.aliased(rng, lambda: g.enc_sps(s, rng).bytes())))
+        cs, cp, s0, p0 = ctxs[i % 4]
+        pq = g.gen_pps(rng, s0)
+        cases.append("pps %s raw:%s" % (cs, hx(bitgen.aliased(rng, lambda: g.enc_pps(pq, rng).bytes()))))
+        hq = g.gen_slice(rng, s0, p0)
+        cases.append("slice %s,%s raw:%s" % (cs, cp, hx(bitgen.aliased(rng, lambda: g.slice_nal(hq, rng)[0]))))
+    # syntax-steering elements set to a value congruent to a valid one modulo 2^8 / 2^16, encoded consistently with what
+    # the standard says for the value actually sent (an Invalid chroma format has 8 scaling lists and no plane flag)
+    for i in range(200 if tier == "quick" else 4000):
+        s = g.gen_sps(rng, small=True, force={"profile_idc": rng.choice(g.CHROMA_PROFILES)})
+        s["chroma_format_idc"] = rng.choice([0, 1, 2, 3, 3, 3]) + rng.choice([256, 512, 65536, 1 << 24])
+        s["scaling_matrix"] = rng.random() < 0.7
+        if len(s["offsets_ref_frame"]) > 7:
+            s["offsets_ref_frame"] = s["offsets_ref_frame"][:2]
+        cases.append("sps raw:" + hx(g.enc_sps(s, rng).bytes()))
     return cases
 
 
